@@ -186,7 +186,16 @@ impl Idle {
                             radio::Response::TxDone(ms) => {
                                 data_rxwindow1_timeout::<R, N>(frame, rx_windows, mac, radio, ms)
                             }
-                            _ => (State::Idle(self), Err(Error::UnexpectedRadioResponse.into())),
+                            _ => {
+                                // the radio was handed the frame, whatever it answers: its
+                                // counter is spent, a retry must not reuse it for a different frame
+                                if let Frame::Data = frame
+                                    && mac.abort_uplink(fcnt_up)
+                                {
+                                    return (State::Idle(self), Ok(Response::SessionExpired));
+                                }
+                                (State::Idle(self), Err(Error::UnexpectedRadioResponse.into()))
+                            }
                         }
                     }
                     Err(e) => {
